@@ -50,6 +50,24 @@ def show_value(v):
     return "NULL" if k == "n" else ("ERR" if k == "e" else (STR_POOL[v["v"]] if k == "s" else ("TRUE" if v["v"] else "FALSE") if k == "b" else str(v["v"])))
 
 
+XPOOL = {1: "FOXO", 2: "a", 3: "a.b", 4: "ab", 5: "b", 6: "fo%o", 7: "fo_o", 8: "foxo"}
+CCHAR = {1: "a", 2: "b", 11: "f", 12: "o", 13: "x", 21: "F", 22: "O", 23: "X", 31: "_", 32: "%", 33: "."}
+
+
+def likex_text(toks):
+    return "".join("%" if t == 101 else "_" if t == 102 else "\\" + CCHAR[t] if t in (31, 32) else CCHAR[t] for t in toks)
+
+
+def regex_text(re):
+    if re["null"]:
+        return "NULL"
+    def alt(a):
+        body = "".join("." if t == 203 else ".*" if t == 204 else "\\." if t == 33 else CCHAR[t] for t in a["items"])
+        return body if re["grp"] else ("^" if a["s"] else "") + body + ("$" if a["e"] else "")
+    txt = "|".join(alt(a) for a in re["alts"])
+    return "'" + (f"^({txt})$" if re["grp"] else txt) + "'"
+
+
 def show(e, header=None):
     """Readable (SQL-like) rendering of an AST, for evidence samples and replay files."""
     op = e["op"]
@@ -62,6 +80,8 @@ def show(e, header=None):
             return "'" + "".join(PAT_TOK[t] for t in header["pats"][v["v"] - 1]) + "'" if header else f"pat{v['v']}"
         if v["k"] == "s":
             return "'" + STR_POOL[v["v"]] + "'"
+        if v["k"] == "x":
+            return "'" + XPOOL[v["v"]] + "'"
         s = show_value(v)
         return s + (":" + e["t"] if e.get("t") not in (None, "i", "b", "s", "p") or v["k"] == "n" and e.get("t") else "")
     if op in ("bin", "tbin"):
@@ -85,6 +105,14 @@ def show(e, header=None):
         return f"{'TRY_' if e['try'] else ''}CAST({X(e['e'])} AS {e['to']})"
     if op == "param":
         return f"${e['i']}"
+    if op == "regex":
+        return f"({X(e['e'])} {e['f']} {regex_text(e['re'])})"
+    if op == "likex":
+        return f"({X(e['e'])} {'NOT ' if e['neg'] else ''}{e['f'].upper()} '{likex_text(e['toks'])}')"
+    if op == "startswith":
+        return f"starts_with({X(e['e'])}, {X(e['pre'])})"
+    if op == "nvl":
+        return f"nvl({X(e['l'])}, {X(e['r'])})"
     return json.dumps(e)
 
 
